@@ -179,11 +179,13 @@ func (x *ChanPubSub[C, V]) Send(value V) (sent int) {
 	// for sanity of the ping-pong communication pattern
 	verifAt("cps.send.sendmu.lock", x, 0)
 	x.sendMu.Lock()
+	verifAt("cps.send.sendmu.locked", x, 0)
 	defer x.sendMu.Unlock()
 
 	// N.B. released after sending (after pings, before waiting for pongs)
 	verifAt("cps.send.sendingmu.lock", x, 0)
 	x.sendingMu.Lock()
+	verifAt("cps.send.sendingmu.locked", x, 0)
 	var skipSendingUnlock bool
 	defer func() {
 		if !skipSendingUnlock {
@@ -331,6 +333,7 @@ func (x *ChanPubSub[C, V]) Add(delta int) (subscribers int) {
 		// concurrently with other attempts to subscribe.
 		verifAt("cps.add.rlock", x, delta)
 		x.sendingMu.RLock()
+		verifAt("cps.add.rlocked", x, 0)
 		defer x.sendingMu.RUnlock()
 		subscribers = x.addSubscribers(delta)
 		x.sanityCheckSubscribersDelta(subscribers, delta)
